@@ -1,1 +1,271 @@
-fn main() {}
+//! Helper child process of property C20 (`vrt c20`). Raw `libc` stdio only
+//! (no buffering, chosen chunk sizes), blocking descriptors.
+//!
+//! `vchild key=value ...`
+//!
+//! * `in=none|echo|sink` – ignore stdin / copy stdin to stdout chunk by chunk
+//!   until EOF / read stdin until EOF and print `LEN=.. HASH=..` as the last
+//!   line of stdout.
+//! * `out=N err=M` – write N (M) position-patterned bytes to stdout (stderr),
+//!   alternating chunk-wise between stdin (if `in=sink`), stdout and stderr.
+//! * `chunk=C` – size of every read/write the child issues.
+//! * `closefirst=1` – close fds 0,1,2 after the stdio work, before `hold`.
+//! * `hold=MS` – sleep before the last act.
+//! * `exit=C` | `sig=S` | `pause=1` – how the process ends: `_exit(C)`,
+//!   `kill(getpid(), S)`, or wait to be killed by the parent.
+//! * `marker=PATH` – the very last act before `_exit`/`kill` (or before
+//!   `pause`) writes `PATH` containing `pid monotonic_ns intended` where
+//!   `intended` is `exit:C`, `sig:S` or `pause`.
+//!
+//! Failures inside the child end it with exit code 97 (recorded in the marker
+//! as `exit:97 <reason>`), never silently.
+
+#[path = "../../vrt/src/c20_proto.rs"]
+mod proto;
+
+use std::ffi::CString;
+
+use proto::*;
+
+#[derive(Clone, Copy, PartialEq, Eq)]
+enum In {
+    None,
+    Echo,
+    Sink,
+}
+
+enum End {
+    Exit(i32),
+    Sig(i32),
+    Pause,
+}
+
+struct Cfg {
+    input: In,
+    out: u64,
+    err: u64,
+    chunk: usize,
+    close_first: bool,
+    hold_ms: u64,
+    end: End,
+    marker: Option<CString>,
+}
+
+fn now_ns() -> u64 {
+    let mut ts = libc::timespec {
+        tv_sec: 0,
+        tv_nsec: 0,
+    };
+    unsafe { libc::clock_gettime(libc::CLOCK_MONOTONIC, &mut ts) };
+    ts.tv_sec as u64 * 1_000_000_000 + ts.tv_nsec as u64
+}
+
+fn write_marker(path: &Option<CString>, intended: &str) {
+    let Some(path) = path else { return };
+    let text = format!("{} {} {}\n", unsafe { libc::getpid() }, now_ns(), intended);
+    unsafe {
+        let fd = libc::open(
+            path.as_ptr(),
+            libc::O_WRONLY | libc::O_CREAT | libc::O_TRUNC | libc::O_CLOEXEC,
+            0o644,
+        );
+        if fd < 0 {
+            libc::_exit(96);
+        }
+        let mut off = 0;
+        let b = text.as_bytes();
+        while off < b.len() {
+            let n = libc::write(fd, b[off..].as_ptr().cast(), b.len() - off);
+            if n < 0 {
+                if *libc::__errno_location() == libc::EINTR {
+                    continue;
+                }
+                libc::_exit(96);
+            }
+            off += n as usize;
+        }
+        libc::close(fd);
+    }
+}
+
+fn fail(cfg: &Cfg, why: &str) -> ! {
+    write_marker(&cfg.marker, &format!("exit:{CHILD_FAILED} {why}"));
+    unsafe { libc::_exit(CHILD_FAILED) }
+}
+
+fn rd(cfg: &Cfg, fd: i32, buf: &mut [u8]) -> usize {
+    loop {
+        let n = unsafe { libc::read(fd, buf.as_mut_ptr().cast(), buf.len()) };
+        if n < 0 {
+            let e = unsafe { *libc::__errno_location() };
+            if e == libc::EINTR {
+                continue;
+            }
+            fail(cfg, &format!("read({fd})-errno-{e}"));
+        }
+        return n as usize;
+    }
+}
+
+fn wr_all(cfg: &Cfg, fd: i32, mut buf: &[u8]) {
+    while !buf.is_empty() {
+        let n = unsafe { libc::write(fd, buf.as_ptr().cast(), buf.len()) };
+        if n < 0 {
+            let e = unsafe { *libc::__errno_location() };
+            if e == libc::EINTR {
+                continue;
+            }
+            fail(cfg, &format!("write({fd})-errno-{e}"));
+        }
+        buf = &buf[n as usize..];
+    }
+}
+
+fn parse() -> Result<Cfg, String> {
+    let mut cfg = Cfg {
+        input: In::None,
+        out: 0,
+        err: 0,
+        chunk: 4096,
+        close_first: false,
+        hold_ms: 0,
+        end: End::Exit(0),
+        marker: None,
+    };
+    for a in std::env::args().skip(1) {
+        let (k, v) = a.split_once('=').ok_or_else(|| format!("bad-arg-{a}"))?;
+        let num = || v.parse::<u64>().map_err(|_| format!("bad-number-{a}"));
+        match k {
+            "in" => {
+                cfg.input = match v {
+                    "none" => In::None,
+                    "echo" => In::Echo,
+                    "sink" => In::Sink,
+                    _ => return Err(format!("bad-arg-{a}")),
+                }
+            }
+            "out" => cfg.out = num()?,
+            "err" => cfg.err = num()?,
+            "chunk" => cfg.chunk = (num()? as usize).max(1),
+            "closefirst" => cfg.close_first = num()? != 0,
+            "hold" => cfg.hold_ms = num()?,
+            "exit" => cfg.end = End::Exit(num()? as i32),
+            "sig" => cfg.end = End::Sig(num()? as i32),
+            "pause" => cfg.end = End::Pause,
+            "marker" => cfg.marker = Some(CString::new(v).map_err(|_| "bad-marker".to_string())?),
+            _ => return Err(format!("bad-arg-{a}")),
+        }
+    }
+    if cfg.input == In::Echo && cfg.out != 0 {
+        return Err("echo-with-out".into());
+    }
+    Ok(cfg)
+}
+
+fn main() {
+    unsafe {
+        // Die with the harness; write errors come back as EPIPE, not SIGPIPE;
+        // the signals we end ourselves with have their default action.
+        libc::prctl(libc::PR_SET_PDEATHSIG, libc::SIGKILL);
+        libc::signal(libc::SIGPIPE, libc::SIG_IGN);
+        libc::signal(libc::SIGTERM, libc::SIG_DFL);
+        let mut set: libc::sigset_t = std::mem::zeroed();
+        libc::sigemptyset(&mut set);
+        libc::sigprocmask(libc::SIG_SETMASK, &set, std::ptr::null_mut());
+    }
+    let cfg = match parse() {
+        Ok(c) => c,
+        Err(e) => {
+            // The marker path may be unknown; best effort.
+            let marker = std::env::args()
+                .skip(1)
+                .find_map(|a| a.strip_prefix("marker=").and_then(|p| CString::new(p).ok()));
+            write_marker(&marker, &format!("exit:{CHILD_FAILED} {e}"));
+            unsafe { libc::_exit(CHILD_FAILED) }
+        }
+    };
+
+    let mut buf = vec![0u8; cfg.chunk];
+    match cfg.input {
+        In::Echo => loop {
+            let n = rd(&cfg, 0, &mut buf);
+            if n == 0 {
+                break;
+            }
+            wr_all(&cfg, 1, &buf[..n]);
+        },
+        In::None | In::Sink => {
+            let mut in_open = cfg.input == In::Sink;
+            let (mut in_len, mut in_hash) = (0u64, FNV_INIT);
+            let (mut o, mut e) = (0u64, 0u64);
+            while in_open || o < cfg.out || e < cfg.err {
+                if in_open {
+                    let n = rd(&cfg, 0, &mut buf);
+                    if n == 0 {
+                        in_open = false;
+                    } else {
+                        in_len += n as u64;
+                        in_hash = fnv(in_hash, &buf[..n]);
+                    }
+                }
+                if o < cfg.out {
+                    let n = (cfg.out - o).min(cfg.chunk as u64) as usize;
+                    fill(SALT_OUT, o, &mut buf[..n]);
+                    wr_all(&cfg, 1, &buf[..n]);
+                    o += n as u64;
+                }
+                if e < cfg.err {
+                    let n = (cfg.err - e).min(cfg.chunk as u64) as usize;
+                    fill(SALT_ERR, e, &mut buf[..n]);
+                    wr_all(&cfg, 2, &buf[..n]);
+                    e += n as u64;
+                }
+            }
+            if cfg.input == In::Sink {
+                wr_all(&cfg, 1, report_line(in_len, in_hash).as_bytes());
+            }
+        }
+    }
+
+    if cfg.close_first {
+        unsafe {
+            libc::close(0);
+            libc::close(1);
+            libc::close(2);
+        }
+    }
+    if cfg.hold_ms > 0 {
+        let ts = libc::timespec {
+            tv_sec: (cfg.hold_ms / 1000) as _,
+            tv_nsec: ((cfg.hold_ms % 1000) * 1_000_000) as _,
+        };
+        let mut rem = ts;
+        unsafe {
+            while libc::nanosleep(&rem.clone(), &mut rem) != 0 {}
+        }
+    }
+    match cfg.end {
+        End::Exit(c) => {
+            write_marker(&cfg.marker, &format!("exit:{c}"));
+            unsafe { libc::_exit(c) }
+        }
+        End::Sig(s) => {
+            write_marker(&cfg.marker, &format!("sig:{s}"));
+            unsafe {
+                libc::kill(libc::getpid(), s);
+                // not reached for fatal signals
+                loop {
+                    libc::pause();
+                }
+            }
+        }
+        End::Pause => {
+            write_marker(&cfg.marker, "pause");
+            unsafe {
+                loop {
+                    libc::pause();
+                }
+            }
+        }
+    }
+}
